@@ -18,6 +18,7 @@
 #include <sys/socket.h>
 #include <sys/time.h>
 #include <unistd.h>
+#include <glob.h>
 
 extern void (*ares_verif_mutex_cb)(const void *mut, int ev);
 
@@ -148,6 +149,7 @@ static long argi(int nt, char **t, const char *key, long def)
   return v ? strtol(v, NULL, 0) : def;
 }
 
+static char sysconf_path[64] = "";
 static ares_channel_t *mkchan(ares_evsys_t ev, int flags, int timeout, int tries)
 {
   struct ares_options o;
@@ -155,8 +157,10 @@ static ares_channel_t *mkchan(ares_evsys_t ev, int flags, int timeout, int tries
   ares_channel_t     *c    = NULL;
   char                csv[64];
   memset(&o, 0, sizeof(o));
-  o.flags   = flags;
-  mask     |= ARES_OPT_FLAGS;
+  if (flags >= 0) {
+    o.flags  = flags;
+    mask    |= ARES_OPT_FLAGS;
+  }
   o.timeout = timeout;
   mask     |= ARES_OPT_TIMEOUTMS;
   o.tries   = tries;
@@ -165,7 +169,7 @@ static ares_channel_t *mkchan(ares_evsys_t ev, int flags, int timeout, int tries
   mask     |= ARES_OPT_EVENT_THREAD;
   o.lookups = (char *)"b";
   mask     |= ARES_OPT_LOOKUPS;
-  o.resolvconf_path = (char *)"/dev/null";
+  o.resolvconf_path = (char *)(flags < 0 && sysconf_path[0] ? sysconf_path : "/dev/null");
   mask             |= ARES_OPT_RESOLVCONF;
   o.hosts_path = (char *)"/dev/null";
   mask        |= ARES_OPT_HOSTS_FILE;
@@ -312,6 +316,16 @@ static void stress_cb(void *arg, ares_status_t status, size_t timeouts, const ar
   __sync_fetch_and_add(&r->cb, 1);
 }
 
+static void stress_cb_legacy(void *arg, int status, int timeouts, unsigned char *abuf, int alen)
+{
+  sreq_t *r = arg;
+  (void)status;
+  (void)timeouts;
+  (void)abuf;
+  (void)alen;
+  __sync_fetch_and_add(&r->cb, 1);
+}
+
 /* lock-order log: per thread, which library mutexes are held; the channel lock must never be acquired while the
  * event-thread mutex is held */
 static const void        *mu_channel = NULL, *mu_event = NULL;
@@ -369,7 +383,10 @@ static void *stress_main(void *arg)
       }
       r = &sreqs[idx];
       snprintf(name, sizeof(name), "%s%d.example", (x >> 8) % 5 == 0 ? "silent" : "n", idx);
-      if ((x >> 4) % 3 == 0) {
+      if ((x >> 4) % 6 == 1) {
+        /* the legacy entry point builds the request from channel settings before it searches */
+        ares_search(s->c, name, ARES_CLASS_IN, ARES_REC_TYPE_A, stress_cb_legacy, r);
+      } else if ((x >> 4) % 3 == 0) {
         ares_dns_record_t *rec = NULL;
         ares_dns_record_create_query(&rec, name, ARES_CLASS_IN, ARES_REC_TYPE_A, 0, ARES_FLAG_RD, 0);
         ares_search_dnsrec(s->c, rec, stress_cb, r);
@@ -416,7 +433,39 @@ static void do_stress(int nt, char **t)
   const char     *evs     = arg(nt, t, "evsys", "epoll");
   int             threads = (int)argi(nt, t, "threads", 4);
   int             iters   = (int)argi(nt, t, "iters", 300);
-  ares_channel_t *c       = mkchan(evsys_of(evs), ARES_FLAG_STAYOPEN, 100, 2);
+  ares_channel_t *c;
+  /* sysflags=1: the application passes no flags, so the system configuration may set them (options use-vc) and every
+     ares_reinit() re-applies them while other threads start requests */
+  int             sysflags = (int)argi(nt, t, "sysflags", 0);
+  if (sysflags) {
+    int fd;
+    {
+      /* leftovers of runs that were aborted by a sanitizer */
+      glob_t g;
+      size_t gi;
+      if (glob("/tmp/h_thread_conf_??????", 0, NULL, &g) == 0) {
+        for (gi = 0; gi < g.gl_pathc; gi++) {
+          unlink(g.gl_pathv[gi]);
+        }
+        globfree(&g);
+      }
+    }
+    snprintf(sysconf_path, sizeof(sysconf_path), "/tmp/h_thread_conf_XXXXXX");
+    fd = mkstemp(sysconf_path);
+    if (fd >= 0) {
+      const char *txt = "options use-vc ndots:2\n";
+      if (write(fd, txt, strlen(txt)) < 0) {
+        sysconf_path[0] = 0;
+      }
+      close(fd);
+    } else {
+      sysconf_path[0] = 0;
+    }
+  }
+  c = mkchan(evsys_of(evs), sysflags ? -1 : ARES_FLAG_STAYOPEN, 100, 2);
+  if (sysflags && sysconf_path[0]) {
+    /* removed at the end of the scenario */
+  }
   pthread_t       th[16];
   sthr_t          sa[16];
   int             i, twice = 0, missing = 0, cbs = 0, deadlock = 0, wempty_bad = 0;
@@ -480,6 +529,10 @@ static void do_stress(int nt, char **t)
          "waitempty_bad=%d deadlock=%d ms=%lld\n",
          evs, threads, nsreq, cbs, twice, missing, lockorder_violations, lock_events, wempty_bad, deadlock,
          now_ms() - t0);
+  if (sysconf_path[0]) {
+    unlink(sysconf_path);
+    sysconf_path[0] = 0;
+  }
 }
 
 int main(void)
